@@ -379,11 +379,36 @@ var c14Cmds = [][]string{{"GET", "k"}, {"SET", "k", "v"}, {"INCR", "n"}, {"APPEN
 
 func genC14Plan(rt *rapid.T) c14Plan {
 	p := c14Plan{Enumerate: rapid.IntRange(0, 400).Draw(rt, "enum"), TLS: rapid.IntRange(0, 2).Draw(rt, "tls") == 0}
+	// a theme concentrates the plan on one kind of shared state, so that the accesses that can race actually meet
+	theme := rapid.SampledFrom([]string{"mixed", "mixed", "auth", "config", "tls-config", "no-command", "churn"}).Draw(rt, "theme")
+	if rapid.IntRange(0, 2).Draw(rt, "pass") == 0 || theme == "auth" {
+		p.Password = "pw"
+	}
+	raws := []string{"+HELLO\r\n", ":1\r\n", "$4\r\nPING\r\n", "-ERR x\r\n", "*0\r\n", "*1\r\n$-1\r\n", "*1\r\n*0\r\n", "$-1\r\n"}
+	auths := [][]string{{"AUTH", "pw"}, {"AUTH", "pw2"}, {"AUTH", "wrong"}, {"AUTH", "pw"}}
 	nc := rapid.SampledFrom([]int{2, 3, 4, 8, 16, 32}).Draw(rt, "clients")
 	for i := 0; i < nc; i++ {
 		var script []c14Step
 		for j, n := 0, rapid.IntRange(3, 30).Draw(rt, "steps"); j < n; j++ {
-			switch rapid.IntRange(0, 11).Draw(rt, "step") {
+			k := rapid.IntRange(0, 11).Draw(rt, "step")
+			if k >= 6 {
+				// the themed half of the steps
+				switch theme {
+				case "auth":
+					script = append(script, c14Step{Cmd: auths[rapid.IntRange(0, len(auths)-1).Draw(rt, "auth")]})
+					continue
+				case "tls-config":
+					script = append(script, c14Step{Cmd: c14Cmds[rapid.IntRange(len(c14Cmds)-15, len(c14Cmds)-11).Draw(rt, "tlscfg")]})
+					continue
+				case "config":
+					k = 4
+				case "no-command":
+					k = 3
+				case "churn":
+					k = 0
+				}
+			}
+			switch k {
 			case 0:
 				script = append(script, c14Step{Reconnect: true})
 			case 1:
@@ -391,7 +416,7 @@ func genC14Plan(rt *rapid.T) c14Plan {
 			case 2:
 				script = append(script, c14Step{SleepUS: rapid.IntRange(1, 200).Draw(rt, "us")})
 			case 3:
-				script = append(script, c14Step{Raw: rapid.SampledFrom([]string{"+HELLO\r\n", ":1\r\n", "$4\r\nPING\r\n", "-ERR x\r\n", "*0\r\n", "*1\r\n$-1\r\n", "*1\r\n*0\r\n", "$-1\r\n"}).Draw(rt, "raw")})
+				script = append(script, c14Step{Raw: rapid.SampledFrom(raws).Draw(rt, "raw")})
 			case 4, 5:
 				script = append(script, c14Step{Cmd: c14Cmds[rapid.IntRange(len(c14Cmds)-15, len(c14Cmds)-1).Draw(rt, "cfg")]})
 			default:
@@ -399,13 +424,22 @@ func genC14Plan(rt *rapid.T) c14Plan {
 			}
 		}
 		p.Clients = append(p.Clients, script)
-		p.Modes = append(p.Modes, rapid.SampledFrom([]string{"tcp", "tcp", "tcp", "tls", "tls", "pipe", "pipe-closeerr", "pipe-closeerr"}).Draw(rt, "mode"))
+		modes := []string{"tcp", "tcp", "tcp", "tls", "tls", "pipe", "pipe-closeerr", "pipe-closeerr"}
+		if theme == "auth" {
+			modes = []string{"tcp", "pipe", "pipe", "pipe-closeerr"} // connections that survive a restart meet the next Start
+		}
+		p.Modes = append(p.Modes, rapid.SampledFrom(modes).Draw(rt, "mode"))
 	}
-	if rapid.IntRange(0, 2).Draw(rt, "pass") == 0 {
-		p.Password = "pw"
+	lives := []string{"restart", "stopstart", "setpass-restart", "sleep", "sleep"}
+	if theme == "auth" {
+		lives = []string{"setpass-restart", "setpass-restart", "restart", "sleep"}
+	}
+	if theme == "tls-config" {
+		p.TLS = true
+		lives = []string{"restart", "restart", "stopstart", "sleep"}
 	}
 	for j, n := 0, rapid.IntRange(0, 6).Draw(rt, "nlife"); j < n; j++ {
-		p.Lifecycle = append(p.Lifecycle, rapid.SampledFrom([]string{"restart", "stopstart", "setpass-restart", "sleep", "sleep"}).Draw(rt, "life"))
+		p.Lifecycle = append(p.Lifecycle, rapid.SampledFrom(lives).Draw(rt, "life"))
 	}
 	return p
 }
